@@ -64,6 +64,8 @@ ASSUMPTIONS = [
     "values (1e-5 / 1e-7 relative); Earth GM and radius, c, solar constant and solar radius are the oracle's own literals",
     "relativity reference = Schwarzschild term of IERS Conventions (2010) eq. 10.12 (beta = gamma = 1)",
     "finite thrust is absent (dynamics.finite_thrust is None) and collision checking is not part of the property",
+    "visible-fraction comparisons allow 32x the round-off conditioning of the textbook arccos lens formula "
+    "(u b^3 / (y pi a^2): 7e-8 in mid penumbra at 200 km altitude, larger within 1e-4 of the penumbra edges, 1e-10 at GEO)",
 ]
 EXPECT_MIN_NONTRIVIAL = 3000
 
